@@ -4,7 +4,10 @@
 the SURVIVORS (mutants that pass the tests and that no check reports).  Survivors are triaged by hand: equivalent /
 outside the properties / a blind spot that deserves a rule.
 
-usage: tools/mutsweep.py <file.py> [--only <function-name-substring>] [--max N] [--out report.json]
+usage: tools/mutsweep.py <file.py> [--only <function-name-substring>] [--max N] [--out report.json] [--gen2]
+
+--gen2 switches to the second set of operators: negated / removed if-tests, dropped else branches, swapped conditional-expression branches, one operand of and / or kept, dropped
+subscripts and .T, sibling-function replacement (all <-> any, min <-> max, union <-> intersection, ...) and swapped arguments of two-argument calls.
 
 Scratch copies live under $TMPDIR and are removed at once.  catii's tests are executed here (on the scratch copy) only
 to decide whether a mutant is 'realistic' in the sense of the task (it must pass the existing suite)."""
@@ -22,11 +25,18 @@ HERE = os.path.dirname(os.path.dirname(os.path.abspath(__file__)))
 REPO = "/repo"
 PY = "/venv/bin/python"
 CMP = {ast.Lt: ast.LtE, ast.LtE: ast.Lt, ast.Gt: ast.GtE, ast.GtE: ast.Gt, ast.Eq: ast.NotEq, ast.NotEq: ast.Eq, ast.Is: ast.IsNot, ast.IsNot: ast.Is, ast.In: ast.NotIn, ast.NotIn: ast.In}
+FN = {"all": "any", "any": "all", "min": "max", "max": "min", "amin": "amax", "amax": "amin", "nansum": "sum", "nanquantile": "quantile", "quantile": "nanquantile", "argmax": "argmin",
+      "argmin": "argmax", "cumsum": "cumprod", "cumprod": "cumsum", "union": "intersection", "intersection": "union", "difference": "intersection", "count_nonzero": "sum", "isnan": "isfinite",
+      "append": "extend", "sorted": "list", "zeros": "ones", "floor": "ceil", "flatnonzero": "nonzero", "concatenate": "hstack", "setdefault": "get", "astype": "view", "empty": "zeros",
+      "bincount": "unique", "array_equal": "allclose", "where": "nonzero", "logical_and": "logical_or", "logical_or": "logical_and", "maximum": "minimum", "minimum": "maximum", "unique": "sort",
+      "items": "keys", "keys": "values", "pop": "get", "update": "setdefault", "isclose": "equal", "nanmax": "max", "nanmin": "min", "flip": "sort", "reversed": "list", "enumerate": "zip"}
 BIN = {ast.Add: ast.Sub, ast.Sub: ast.Add, ast.Mult: ast.FloorDiv, ast.FloorDiv: ast.Mult, ast.BitAnd: ast.BitOr, ast.BitOr: ast.BitAnd}
 
 
 class Mutator(ast.NodeTransformer):
     """Applies the k-th mutation opportunity met in document order."""
+
+    gen2 = False
 
     def __init__(self, target):
         self.target = target
@@ -53,8 +63,39 @@ class Mutator(ast.NodeTransformer):
         self.func.pop()
         return node
 
+    def visit_If(self, node):
+        self.generic_visit(node)
+        if self.gen2:
+            if self.hit("negate if-test", node):
+                node.test = ast.UnaryOp(ast.Not(), node.test)
+            elif node.orelse and self.hit("drop else branch", node):
+                node.orelse = []
+            elif self.hit("if-test -> True", node):
+                node.test = ast.Constant(True)
+        return node
+
+    def visit_IfExp(self, node):
+        self.generic_visit(node)
+        if self.gen2 and self.hit("swap ifexp branches", node):
+            node.body, node.orelse = node.orelse, node.body
+        return node
+
+    def visit_Subscript(self, node):
+        self.generic_visit(node)
+        if self.gen2 and isinstance(node.ctx, ast.Load) and not isinstance(node.slice, (ast.Constant, ast.Slice, ast.Tuple)) and self.hit("drop subscript [%s]" % ast.unparse(node.slice)[:20], node):
+            return node.value
+        return node
+
+    def visit_Attribute(self, node):
+        self.generic_visit(node)
+        if self.gen2 and node.attr == "T" and self.hit("drop .T", node):
+            return node.value
+        return node
+
     def visit_Compare(self, node):
         self.generic_visit(node)
+        if self.gen2:
+            return node
         for i, op in enumerate(node.ops):
             if type(op) in CMP and self.hit("cmp %s->%s" % (type(op).__name__, CMP[type(op)].__name__), node):
                 node.ops[i] = CMP[type(op)]()
@@ -62,23 +103,35 @@ class Mutator(ast.NodeTransformer):
 
     def visit_BinOp(self, node):
         self.generic_visit(node)
+        if self.gen2:
+            return node
         if type(node.op) in BIN and self.hit("binop %s->%s" % (type(node.op).__name__, BIN[type(node.op)].__name__), node):
             node.op = BIN[type(node.op)]()
         return node
 
     def visit_BoolOp(self, node):
         self.generic_visit(node)
+        if self.gen2:
+            if len(node.values) == 2 and self.hit("boolop keep left only", node):
+                return node.values[0]
+            if len(node.values) == 2 and self.hit("boolop keep right only", node):
+                return node.values[1]
+            return node
         if self.hit("boolop swap", node):
             node.op = ast.Or() if isinstance(node.op, ast.And) else ast.And()
         return node
 
     def visit_UnaryOp(self, node):
         self.generic_visit(node)
+        if self.gen2:
+            return node
         if isinstance(node.op, (ast.Not, ast.Invert)) and self.hit("drop %s" % type(node.op).__name__, node):
             return node.operand
         return node
 
     def visit_Constant(self, node):
+        if self.gen2:
+            return node
         if isinstance(node.value, bool):
             if self.hit("bool flip", node):
                 return ast.copy_location(ast.Constant(not node.value), node)
@@ -91,6 +144,17 @@ class Mutator(ast.NodeTransformer):
 
     def visit_Call(self, node):
         self.generic_visit(node)
+        if self.gen2:
+            f = node.func
+            nm = f.attr if isinstance(f, ast.Attribute) else (f.id if isinstance(f, ast.Name) else None)
+            if nm in FN and self.hit("call %s -> %s" % (nm, FN[nm]), node):
+                if isinstance(f, ast.Attribute):
+                    f.attr = FN[nm]
+                else:
+                    f.id = FN[nm]
+            elif len(node.args) == 2 and not node.keywords and ast.dump(node.args[0]) != ast.dump(node.args[1]) and self.hit("swap the two arguments of %s" % (nm,), node):
+                node.args = [node.args[1], node.args[0]]
+            return node
         # x.copy() -> x ; drop axis= / minlength= / dtype= keywords
         if isinstance(node.func, ast.Attribute) and node.func.attr in ("copy",) and not node.args and not node.keywords and self.hit("drop .copy()", node):
             return node.func.value
@@ -101,6 +165,8 @@ class Mutator(ast.NodeTransformer):
         return node
 
     def _maybe_delete(self, node):
+        if self.gen2:
+            return None
         if self.hit("delete statement %s" % type(node).__name__, node):
             return ast.copy_location(ast.Pass(), node)
         return None
@@ -212,6 +278,7 @@ def one(args):
 
 def main():
     fname = sys.argv[1]
+    Mutator.gen2 = "--gen2" in sys.argv
     only = sys.argv[sys.argv.index("--only") + 1] if "--only" in sys.argv else None
     mx = int(sys.argv[sys.argv.index("--max") + 1]) if "--max" in sys.argv else 100000
     out = sys.argv[sys.argv.index("--out") + 1] if "--out" in sys.argv else None
